@@ -247,6 +247,19 @@ func (e *Env) tr(x CExpr) Val {
 		c := e.child()
 		c.vars[n.Name] = v
 		return c.tr(n.Body)
+	case *CApply:
+		vals := make([]Val, len(n.Args))
+		for i, a := range n.Args {
+			vals[i] = e.tr(a)
+		}
+		c := e.child()
+		for i, p := range n.Params {
+			c.vars[p] = vals[i]
+		}
+		// the body of a spec function sees only its parameters
+		c.fr = nil
+		c.st = nil
+		return c.tr(n.Body)
 	}
 	cfail("unsupported contract expression %T", x)
 	return Val{}
@@ -480,7 +493,7 @@ func (e *Env) field(n *CField) Val {
 		si := e.w.structInfo(t)
 		for i := 0; i < st.NumFields(); i++ {
 			if st.Field(i).Name() == n.Name {
-				return e.mk(app(selName(si, i), xv.S), st.Field(i).Type())
+				return e.mk(selApp(si, i, xv.S), st.Field(i).Type())
 			}
 		}
 		cfail("no field %s", n.Name)
@@ -681,4 +694,53 @@ func (e *Env) noteStrEq(a, b string) {
 
 func strExt(a, b string) string {
 	return fmt.Sprintf("(=> (and (= (len %s) (len %s)) (forall ((k!e Int)) (=> (and (<= 0 k!e) (< k!e (len %s))) (= (at %s k!e) (at %s k!e))))) (= %s %s))", a, b, a, a, b, a, b)
+}
+
+// expandGoal splits a goal into independently provable pieces: conjunctions, implications with a conjunctive
+// conclusion, and applications of non-recursive boolean spec functions (unfolded once).
+func (w *World) expandGoal(e CExpr, depth int) []CExpr {
+	switch n := e.(type) {
+	case *CBinary:
+		switch n.Op {
+		case "&&":
+			return append(w.expandGoal(n.X, depth), w.expandGoal(n.Y, depth)...)
+		case "==>":
+			ys := w.expandGoal(n.Y, depth)
+			if len(ys) == 1 {
+				return []CExpr{e}
+			}
+			var out []CExpr
+			for _, y := range ys {
+				out = append(out, &CBinary{"==>", n.X, y})
+			}
+			return out
+		}
+	case *CCall:
+		if sf, ok := w.specs[n.Fun]; ok && depth < 3 && sf.Body != nil && sf.Result == "bool" && !mentionsCall(sf.Body, sf.Name) && len(n.Args) == len(sf.Params) {
+			parts := w.expandGoal(sf.Body, depth+1)
+			if len(parts) == 1 {
+				return []CExpr{e}
+			}
+			var ps []string
+			for _, p := range sf.Params {
+				ps = append(ps, p.Name)
+			}
+			var out []CExpr
+			for _, p := range parts {
+				out = append(out, &CApply{Params: ps, Args: n.Args, Body: p})
+			}
+			return out
+		}
+	case *CApply:
+		parts := w.expandGoal(n.Body, depth)
+		if len(parts) == 1 {
+			return []CExpr{e}
+		}
+		var out []CExpr
+		for _, p := range parts {
+			out = append(out, &CApply{Params: n.Params, Args: n.Args, Body: p})
+		}
+		return out
+	}
+	return []CExpr{e}
 }
